@@ -36,8 +36,14 @@ def run(ctx):
                 ctx.ob('IO-LAYER', 'file_io.c:%s:%s@%d' % (f.name, c['callee'], len([x for x in f.calls(c['callee']) if x['id'] <= c['id']])), True, f.loc(c), '%s in the I/O layer' % c['callee'], None)
             else:
                 ok = (base, f.name, c['callee']) in RAW_EXCEPTIONS
+                if not ok and f.static:
+                    # the same exception when the statement lives in a static helper that only the excepted function calls
+                    callers_ = set(prog.callers.get(f.name, ()))
+                    for (b_, fn_, cal_), why_ in RAW_EXCEPTIONS.items():
+                        if b_ == base and cal_ == c['callee'] and callers_ and callers_ <= {fn_}:
+                            ok = True
                 ctx.ob('IO-LAYER', '%s:%s:%s' % (base, f.name, c['callee']), ok, f.loc(c), 'raw %s () outside file_io.c%s' % (
-                    c['callee'], ' (frozen exception: %s)' % RAW_EXCEPTIONS[(base, f.name, c['callee'])] if ok else ': only the I/O layer may touch descriptors'), None)
+                    c['callee'], ' (frozen exception: %s)' % RAW_EXCEPTIONS.get((base, f.name, c['callee']), 'helper of an excepted function') if ok else ': only the I/O layer may touch descriptors'), None)
         if base != 'file_io.c':
             acc = [n for n in f.walk() if n['k'] == 'MemberExpr' and n.get('rec') == 'PSF_FILE' and n['n'] in ('filedes', 'savedes')]
             if acc:
@@ -78,7 +84,7 @@ def run(ctx):
 
     # ------------------------------------------------------------------ FD-OWN
     ctx.rule('FD-OWN', 'psf_fclose reaches the raw close of file.filedes only with virtual_io == 0 and do_not_close_descriptor == 0; sf_open_fd stores !close_desc into do_not_close_descriptor; '
-             'its early failing returns close (fd) only under close_desc; psf_close calls psf_fclose exactly once', floor=4)
+             'its early failing returns close (fd) only under close_desc; psf_close calls psf_fclose exactly once', floor=3)
     f = prog.fn('psf_fclose', 'file_io.c')
     bd = Bounds(prog, f, eff)
     cl = [c for c in f.calls(('psf_close_fd', 'close'))]
@@ -100,6 +106,24 @@ def run(ctx):
         b = bd.ev_at(cd[0], f.cfg.point(c)) if cd else None
         ok = b is not None and (b.lo is not None and b.lo >= 1 or ('!=', '0') in b.lbs)
         ctx.ob('FD-OWN', 'sf_open_fd:early-close@%d' % len([x for x in f.calls('close') if x['id'] <= c['id']]), ok, f.loc(c), 'close (fd) on early failure %s' % ('only when close_desc is set' if ok else 'NOT guarded by close_desc'), None)
+    # failure exits collected in a static helper: its close () must be guarded by a parameter that every call in sf_open_fd feeds from close_desc
+    for hc in f.calls():
+        hs = prog.fns.get(hc.get('callee') or '', [])
+        if len(hs) != 1 or not hs[0].static or hs[0].file != f.file or not list(hs[0].calls('close')):
+            continue
+        h = hs[0]
+        hb = Bounds(prog, h, eff)
+        for c in h.calls('close'):
+            okh = False
+            for k_, p_ in enumerate(h.params):
+                pn = [n for n in h.walk() if n['k'] == 'DeclRefExpr' and n['n'] == p_['n']]
+                if not pn:
+                    continue
+                b = hb.ev_at(pn[0], h.cfg.point(c))
+                if (b.lo is not None and b.lo >= 1) or ('!=', '0') in b.lbs:
+                    if k_ < len(f.args(hc)) and f.s(f.unwrap(f.args(hc)[k_])) == 'close_desc':
+                        okh = True
+            ctx.ob('FD-OWN', 'sf_open_fd:early-close via %s@%d' % (h.name, hc['l']), okh, f.loc(hc), 'close (fd) in the failure helper %s %s' % (h.name, 'only when the close_desc it is given is set' if okh else 'NOT guarded by close_desc'), None)
 
     # ------------------------------------------------------------------ FD-INIT
     ctx.rule('FD-INIT', 'sf_open, sf_open_fd and sf_open_virtual call psf_init_files (psf) after psf_allocate and before any psf_close / psf_open_file / psf_fopen / psf_set_file; '
